@@ -10,9 +10,9 @@ if bitarray.__version__.startswith("2."):
 def indices(s: slice, length: int) -> tuple[int, int | None, int]:
     """A better implementation of slice.indices such that a
     slice made from [start:stop:step] will actually equal the original slice."""
-    if s.step is None or s.step > 0:
+    if s.step is None or s.step >= 0:
+        # (A step of zero is rejected by slice.indices with a ValueError.)
         return s.indices(length)
-    assert s.step < 0
     start, stop, step = s.indices(length)
     if start < 0:
         # Nothing is selected, but a start of -1 would be taken to mean the final element.
